@@ -40,6 +40,8 @@ VALUES_ZERO = {"int": {"a": I(0), "b": I(0)}, "real": {"a": R(0, 1), "b": R(0, 1
                "wreal": {"a": R(0, 1), "b": R(3, 1)}}
 # ... and with integers whose powers leave the range in which a double is exact (2^53): chosen for a sixth of the histories
 VALUES_BIG = {"int": {"a": I(7), "b": I(20)}, "ivec": {"a": L(I(7), I(3), I(11)), "b": L(I(20), I(34), I(17))}}
+# ... and with integers at the edge of 64 bits (no oracle: TLC's integers have 32 bits): a tenth of the histories
+VALUES_HUGE = {"int": {"a": I(2 ** 62), "b": I(2 ** 62)}}
 CLASSES = list(VALUES)
 ADMITTED = [c for c in CLASSES if c != "str"]
 
@@ -150,6 +152,19 @@ def py_value(v):
     raise ValueError(v)
 
 
+def is_huge(k):
+    """an integer of magnitude >= 2^61 is bound to a or b"""
+    import numpy as np
+    for v in ("a", "b"):
+        try:
+            x = k[v]
+        except Exception:   # noqa
+            continue
+        if isinstance(x, (int, np.integer)) and not isinstance(x, bool) and abs(int(x)) >= 2 ** 61:
+            return True
+    return False
+
+
 def run(tier, seed):
     import logging
     logging.disable(logging.CRITICAL)
@@ -228,12 +243,24 @@ def run(tier, seed):
     nest = [e for e in exprs if is_nested_reduction(e)]
     jobs = [(start, h, rnd.sample(exprs, per_hist)) for (start, h) in hists[:(500 if not thorough else 5000)]]
     jobs += [(start, h, rnd.sample(nest, 4 if not thorough else 8) + rnd.sample(exprs, 2)) for (start, h) in focus]
-    for (start, h, es) in jobs:
+    # powers over two integer atoms whose result leaves the range in which a double is exact, in every evaluation position,
+    # evaluated twice
+    a_, b_ = var("a"), var("b")
+    pw = [{"k": "dy", "op": "^", "a": a_, "b": b_}, {"k": "dy", "op": "^", "a": {"k": "dy", "op": "^", "a": b_, "b": lit(I(2))}, "b": a_},
+          {"k": "dy", "op": "+", "a": {"k": "dy", "op": "^", "a": a_, "b": b_}, "b": lit(I(1))},
+          {"k": "dy", "op": "^", "a": a_, "b": {"k": "dy", "op": "-", "a": b_, "b": lit(I(1))}}]
+    starts["intint"] = {"a": "int", "b": "int"}
+    jobs = [(st_, h_, es_, None) for (st_, h_, es_) in jobs]
+    for pos in ("evaltop", "evalfn", "evallam", "evalarg"):
+        jobs.append(("intint", [{"a": pos, "compiled": True, "stale": False}, {"a": pos, "compiled": True, "stale": False}], pw, VALUES_BIG))
+    for (start, h, es, forced) in jobs:
         for e in es:
             cls = dict(starts[start])
             steps = []
             q = rnd.random()
-            alt = VALUES_ZERO if q < 1 / 3 else VALUES_BIG if q < 1 / 2 else {}
+            alt = VALUES_ZERO if q < 1 / 3 else VALUES_BIG if q < 1 / 2 else VALUES_HUGE if q < 0.6 else {}
+            if forced is not None:
+                alt = forced
             valof = (lambda c, v, alt=alt: alt.get(c, VALUES[c])[v])
             for st in h:
                 if st["a"] == "rebind":
@@ -241,9 +268,11 @@ def run(tier, seed):
                     steps.append(("rebind", st["v"], st["c"], st["route"]))
                 else:
                     env = {v: valof(cls[v], v) for v in ("a", "b")}
-                    cid = len(cases) + 1
-                    cases.append({"id": cid, "ast": e, "env": env})
-                    steps.append(("eval", st["a"], cid, st["compiled"], st["stale"]))
+                    huge = any(x["t"] == "i" and abs(x["v"]) >= 2 ** 31 for x in env.values())
+                    cid = None if huge else len(cases) + 1
+                    if not huge:
+                        cases.append({"id": cid, "ast": e, "env": env})
+                    steps.append(("eval", st["a"], cid, st["compiled"], "huge" if huge else st["stale"]))
             plans.append((start, e, steps, valof))
     vals = kgeval.tlc_eval(cases, ev, "KgEvalCases.tla: prescribed value of every evaluation of every history")
     common.use_repo()
@@ -282,7 +311,7 @@ def run(tier, seed):
                     else:
                         k(f"{{{v}::{canon.render(val)}}}()")
                     continue
-                _, pos, cid, _, _ = st
+                _, pos, cid, _, flag = st
                 text = {"evaltop": src, "evalfn": "f()", "evallam": f"{{{lam}}}(a;b)" if uses_b else f"{{{lam}}}(a)",
                         "evalarg": f"*,({src})"}[pos]
                 try:
@@ -291,7 +320,7 @@ def run(tier, seed):
                         got = {"t": "fail", "v": "undefined"}
                 except BaseException as ex:   # noqa
                     got = {"t": "fail", "v": type(ex).__name__}
-                res.append((pos, cid, text, got))
+                res.append((pos, cid, text, got, is_huge(k)))
             # the same interpreter then evaluates the MIRROR of the expression (a and b exchanged): code compiled for one
             # expression must not be served for another one of the same shape over the same variables
             if uses_b:
@@ -302,7 +331,7 @@ def run(tier, seed):
                         got = {"t": "fail", "v": "undefined"}
                 except BaseException as ex:   # noqa
                     got = {"t": "fail", "v": type(ex).__name__}
-                res.append(("mirror", None, mtext, got))
+                res.append(("mirror", None, mtext, got, is_huge(k)))
             # ... and the expression with its integer literals written as reals (2 -> 2.0): same value, other kind - code
             # generated for one must not be served for the other
             ktext = kgeval.render_ast(realify(e))
@@ -313,9 +342,9 @@ def run(tier, seed):
                         got = {"t": "fail", "v": "undefined"}
                 except BaseException as ex:   # noqa
                     got = {"t": "fail", "v": type(ex).__name__}
-                res.append(("literal-kind", None, ktext, got))
+                res.append(("literal-kind", None, ktext, got, is_huge(k)))
             outs[mode] = res
-        for (pos, cid, text, gc), (_, _, _, gi) in zip(outs["compiled"], outs["interpreted"]):
+        for (pos, cid, text, gc, huge), (_, _, _, gi, _) in zip(outs["compiled"], outs["interpreted"]):
             nevals += 1
             ok, exp = vals[cid] if cid is not None else (False, None)
             same_ci = (gc["t"] == "fail" and gi["t"] == "fail") or canon.same(gc, gi)
@@ -337,7 +366,7 @@ def run(tier, seed):
                 vd.violation({"what": f"`{text}` (expression {src}, position {pos}) after {hist_txt}: compiled run gives "
                                       f"{canon.show(gc) if gc['t'] not in ('fail',) else gc}, tree-walking run gives "
                                       f"{canon.show(gi) if gi['t'] not in ('fail',) else gi}; KgEval: {spec}{culprit}",
-                              "part": "equivalence", "expr": src, "pos": pos, "shape": shape,
+                              "part": "equivalence", "expr": src, "pos": pos, "shape": shape, "operands_beyond_2_61": bool(huge),
                               "numeric_only": gc["t"] != "fail" and gi["t"] != "fail" and canon.same_mod(gc, gi, numeric=True),
                               "compiled_fails": gc["t"] == "fail", "interpreted_fails": gi["t"] == "fail"}, matcher=matcher)
             elif ok and gc["t"] != "fail" and not canon.same(exp, gc):
@@ -365,6 +394,8 @@ def matcher(f, case):
     if "fam" in m and case.get("shape", {}).get("fam") not in m["fam"]:
         return False
     if m.get("numeric_only") and not case.get("numeric_only"):
+        return False
+    if "operands_beyond_2_61" in m and bool(case.get("operands_beyond_2_61")) != bool(m["operands_beyond_2_61"]):
         return False
     return True
 
